@@ -71,6 +71,9 @@ func (m MIn) Value() any {
 	case "bogusop":
 		return stackage.ComparisonOperator(7 + posMod(m.I, 200))
 	case "userop":
+		if m.I%3 == 2 {
+			return sliceOp{"=~", "match"} // an operator of an uncomparable Go type
+		}
 		return userOp{"~=", "approx"}
 	case "emptyop":
 		if m.I%2 == 0 {
@@ -202,7 +205,14 @@ func matchDecodedStack(s stackage.Stack, in []MIn, path string) error {
 
 func matchDecodedEntry(v any, e MIn, path string) error {
 	if e.K != "list" {
-		if want := e.Value(); v != want {
+		want := e.Value()
+		if wo, ok := want.(stackage.Operator); ok {
+			if vo, ok2 := v.(stackage.Operator); !ok2 || !sameOp(vo, wo) {
+				return fmt.Errorf("%s: %#v, want %#v", path, v, want)
+			}
+			return nil
+		}
+		if v != want {
 			return fmt.Errorf("%s: %#v, want %#v", path, v, want)
 		}
 		return nil
@@ -225,7 +235,7 @@ func matchDecodedCond(c stackage.Condition, in []MIn, path string) error {
 	if c.Keyword() != in[1].S {
 		return fmt.Errorf("%s: Keyword()=%q, want %q", path, c.Keyword(), in[1].S)
 	}
-	if c.Operator() != in[2].Value() {
+	if x, _ := in[2].Value().(stackage.Operator); !sameOp(c.Operator(), x) {
 		return fmt.Errorf("%s: Operator()=%#v, want %#v", path, c.Operator(), in[2].Value())
 	}
 	return matchDecodedEntry(c.Expression(), in[3], path+".expr")
